@@ -62,6 +62,19 @@ theorem bot_no_panic (cfg : Conf) (hfix : cfg.fixed = true) (size : Nat) (secs :
   · rw [h1 hend] at he; cases he
   · rw [h2 hend] at he; cases he
 
+/-- **An observer never transmits a move** (`ObserveGame`: `g.Color = NoColor`), in any interleaving. -/
+theorem observer_silent (cfg : Conf) (hfix : cfg.fixed = true) (hobs : cfg.color = .none) (size : Nat) (secs : Int)
+    (evs : List Ev) : sentMoves (run cfg (start cfg size secs) evs) = [] := by
+  have h := bot_inv cfg hfix size secs evs
+  rw [h.logged]
+  cases hl : (run cfg (start cfg size secs) evs).log with
+  | nil => rfl
+  | cons r rs =>
+    have ht := (h.sends r (by rw [hl]; exact List.mem_cons_self)).onTurn
+    rw [hobs] at ht
+    unfold Pos.toMove at ht
+    split at ht <;> cases ht
+
 /-- **`moveLock` serialises the thinkers**: in every reachable state (either variant of the loop) at most one thinker
 goroutine is inside `Bot.GetMove`, however many invocations have come and gone with their thinkers still waiting. -/
 theorem lock_exclusive (cfg : Conf) (size : Nat) (secs : Int) (evs : List Ev) :
@@ -134,6 +147,16 @@ example :
     s.sent = [.move (flat 0 0), .move (flat 4 2), .requestUndo, .move (flat 4 1)] ∧
     s.moves = [flat 4 1, flat 4 0, flat 0 0] ∧ s.moves = s.srvMoves ∧ s.positions = s.srvPos ∧
     s.log.length = 3 ∧ s.status = .ended ∧ s.result = "R-0" ∧ s.mine = 590000000000 := by
+  decide +kernel
+
+/-- an observer's run: it follows two moves and an undo, transmits nothing, and ends with the game -/
+example :
+    let cfg : Conf := { basis := zeroBasis, color := .none, gameStr := "Game#7", fixed := true }
+    let s := run cfg (start cfg 5 600)
+      [.grant 0, .deliver ["Game#7", "P", "A1"] (some (flat 0 0)) false, .timerFires, .aiReturns 0 (flat 3 3), .grant 1,
+       .deliver ["Game#7", "P", "E1"] (some (flat 4 0)) false, .deliver ["Game#7", "Undo"] none false,
+       .aiReturns 1 (flat 3 3), .deliver ["Game#7", "Abandoned.", "x", "quit"] none false]
+    s.sent = [] ∧ s.moves = [flat 0 0] ∧ s.status = .ended ∧ s.old.length = 2 := by
   decide +kernel
 
 /-- in `playTrace` a thinker does hold the lock at times (after the 13th event thinker 4 is inside `GetMove`) -/
